@@ -9,7 +9,7 @@ from .. import translate as T
 
 PID = "C07"
 TITLE = "Geometric quantities match their definitions, invariant under rigid motion"
-LEAN_MODULES = ["Mouette.Props.C07"]
+LEAN_MODULES = ["Mouette.Props.C07", "Mouette.Props.C07Real"]
 REQUIRED_THEOREMS = [
     "sub_translate", "bary_translate", "circumcenter_translate", "dot_rotate", "norm2_rotate", "cross_rotate",
     "det3_rotate", "det_sq_of_orthogonal", "triArea2_rotate", "cornerCS_rotate", "tetVolume_rotate", "circumcenter_rotate",
@@ -17,6 +17,8 @@ REQUIRED_THEOREMS = [
     "circumcenter_equidistant_and_coplanar", "circumcenter_unique", "circumcenterNoOffset_refuted", "third_index",
     "corner_index_div", "corner_index_mod", "oppCorner_is_opposite", "cotanArgs_bridge", "cotanArgs_centered",
     "oppCorner_bridge", "interpolate_constant", "interpV2F_constant", "quatRot_orthogonal", "renumber_pt",
+    "atan2_eq_angle", "codeAngle_eq_angle", "codeAngle_range", "angle_sum_pi", "meshAngle_sum", "corner_sum_by_vertex", "defect_total",
+    "gauss_bonnet_combinatorial", "gauss_bonnet_closed", "gauss_bonnet", "handshake_of_manifold", "gauss_bonnet_of_manifold",
     "faceAreaTerms_rotate", "faceCornerCS_rotate", "faceNormalDir_rotate", "faceBary_rotate", "bary_rotate", "mid_rotate", "dist2_rotate",
 ]
 TRUSTED = [
@@ -115,6 +117,7 @@ def observe(kind, V, elems, opts, attrs=None):
     out["fnrm"] = _try(lambda: _alist(A.face_normals(m, persistent=P, dense=D), nF, 3))
     out["fbary"] = _try(lambda: _alist(A.face_barycenter(m, persistent=P, dense=D), nF, 3))
     out["fcirc"] = _try(lambda: _alist(A.face_circumcenter(m, persistent=P, dense=D), nF, 3))
+    out["far"] = _try(lambda: _alist(A.triangle_aspect_ratio(m, persistent=P, dense=D), nF))
     if opts.get("angles_first"):
         out["cangle"] = _try(lambda: _alist(A.corner_angles(m, persistent=P, dense=D), nK))
     out["ccot"] = _try(lambda: _alist(A.cotangent(m, persistent=P, dense=D), nK))
@@ -183,7 +186,7 @@ REG = {
     "cvol": ("K", "s", 3), "cbary": ("K", "p", 1), "g_mcv": ("G", "s", 3),
     "farea": ("F", "s", 2), "fnrm": ("F", "d", 0), "fbary": ("F", "p", 1), "fcirc": ("F", "p", 1), "cangle": ("C", "s", 0),
     "ccot": ("C", "s", 0), "cotw": ("E", "s", 0), "vn_uniform": ("V", "d", 0), "vn_area": ("V", "d", 0), "vn_angle": ("V", "d", 0),
-    "ad": ("V", "s", 0), "g_mel_n": ("G*", "s", 1), "g_mfa": ("G", "s", 2), "g_ta": ("G", "s", 2), "g_chi": ("G", "s", 0),
+    "far": ("F", "s", 0), "ad": ("V", "s", 0), "g_mel_n": ("G*", "s", 1), "g_mfa": ("G", "s", 2), "g_ta": ("G", "s", 2), "g_chi": ("G", "s", 0),
 }
 REG["g_mel_big"] = ("G", "s", 1); REG["g_mfa_big"] = ("G", "s", 2); REG["g_mcv_big"] = ("G", "s", 3)
 for _t in ("i", "k", "r"):
@@ -191,7 +194,7 @@ for _t in ("i", "k", "r"):
     for _w in ("uniform", "area", "angle", "sum"): REG[f"{_t}_f2v_{_w}"] = ("V", "s", 0)
     for _w in ("uniform", "angle", "sum"):
         REG[f"{_t}_ac2v_{_w}"] = ("V", "s", 0); REG[f"{_t}_ac2f_{_w}"] = ("F", "s", 0)
-COND = {"ccot": 400.0, "cotw": 400.0, "vn_uniform": 50.0, "vn_area": 50.0, "vn_angle": 50.0, "fnrm": 50.0, "fcirc": 400.0}
+COND = {"far": 1e4, "ccot": 400.0, "cotw": 400.0, "vn_uniform": 50.0, "vn_area": 50.0, "vn_angle": 50.0, "fnrm": 50.0, "fcirc": 400.0}
 
 
 def _size(V):
@@ -324,6 +327,14 @@ def textbook(kind, V, X, E, opts, attrs):
             nrm.append(None)            # non-planar polygon: no textbook normal; unit length + equivariance only
     out["fnrm"] = [c for n in nrm for c in (n if n else [float("nan")] * 3)]
     out["fbary"] = [float(sum(P[i][k] for i in f) / len(f)) for f in Fs for k in range(3)]
+    # triangle aspect ratio: circumradius / (2 inradius) = abc / (8 (s-a)(s-b)(s-c)); -1 on non-triangular faces (documented)
+    far = []
+    for f in Fs:
+        if len(f) != 3: far.append(-1.0); continue
+        la, lb, lc = (U.fsqrt(U.vnorm2(U.vsub(P[f[i]], P[f[(i + 1) % 3]]))) for i in range(3))
+        area = _tri_area(*(P[i] for i in f)); sp = (la + lb + lc) / 2
+        far.append((la * lb * lc / (4 * area)) / (2 * area / sp))
+    out["far"] = far
     angles, cot, cv, cf = [], [], [], []
     for t, f in enumerate(Fs):
         n = len(f)
@@ -469,6 +480,25 @@ def _chunks(lst, w):
 # =================================================================================================
 # the oracle: the property stated directly on the implementation
 # =================================================================================================
+def gauss_bonnet_premises(V, X, E):
+    """the explicit hypotheses of Props/C07Real.gauss_bonnet, evaluated by direct inspection (same definitions as the Lean
+    predicates TriMesh, NonDegenerate, nBorderV, handshake 3F + E_b = 2E, V_b = E_b)"""
+    nV, F, nE = len(V), len(X), len(E)
+    sides = {(f[i], f[(i + 1) % len(f)]) for f in X for i in range(len(f))}
+    border_v = {v for (a, b) in sides if (b, a) not in sides for v in (a, b)}          # isBorderVertex
+    Eb = sum(1 for (a, b) in E if ((a, b) in sides) != ((b, a) in sides))
+    P = [tuple(p) for p in V]
+    alls = [(f[i], f[(i + 1) % len(f)]) for f in X for i in range(len(f))]
+    El = [tuple(e) for e in E]
+    return {"OrientedTriangulation": all(len(set(f)) == 3 for f in X) and len(set(alls)) == len(alls),
+            "EdgesAreSides": all(El.count(sd) + El.count((sd[1], sd[0])) == 1 for sd in alls),
+            "EdgesFromSides": all((e in sides) or ((e[1], e[0]) in sides) for e in El),
+            "TriMesh": all(len(f) == 3 and all(0 <= v < nV for v in f) for f in X),
+            "NonDegenerate": all(len({P[v] for v in f}) == 3 for f in X),
+            "handshake": 3 * F + Eb == 2 * nE,
+            "border_cycles": len(border_v) == Eb}
+
+
 def _finding(key, what, detail):
     return {"key": key, "what": what, "detail": str(detail)[:400]}
 
@@ -537,6 +567,11 @@ def oracle(case):
                     out.append(_finding("C07/anglesum", "corner angles of a triangle do not sum to pi", f"face {t}: {s}")); break
             if not opts.get("zb") and not isinstance(obs["ad"], str):
                 st = G.surface_stats(len(V), X)
+                # premises of the Lean theorem gauss_bonnet, re-checked on this mesh (a failure is a generator/harness problem,
+                # i.e. the theorem would not apply; it is reported as such, never silently skipped)
+                prem = gauss_bonnet_premises(V, X, E)
+                if st["manifold"] and st["unused"] == 0 and not all(prem.values()):
+                    raise RuntimeError(f"gauss_bonnet premises fail on a generated manifold mesh: {prem} tag={case.get('tag')}")
                 if st["manifold"] and st["unused"] == 0:
                     tot = sum(obs["ad"])
                     if abs(tot - 2 * math.pi * st["chi"]) > 1e-8 * max(1, len(V)):
@@ -1011,12 +1046,16 @@ MANIFEST = {
                    "per-element attributes: translation invariance, rotation equivariance (cross (Ra)(Rb) = det R . R(a x b) for every "
                    "R with RtR = I, hence invariance of lengths², areas², (cross²,dot) corner pairs, |det|/6 volumes, equivariance of "
                    "barycentres and circumcentres), homogeneity degrees, Lagrange identity, circumcentre equidistant+coplanar+unique, "
-                   "corner index conventions (incl. the tables re-extracted from the source), interpolation of constants. The model is "
+                   "corner index conventions (incl. the tables re-extracted from the source), interpolation of constants; over the reals: the code's "
+                   "atan2(sqrt(cross²),dot) IS the Euclidean angle, angle_sum_pi, and gauss_bonnet (sum of angle defects = 2*pi*chi, interior and "
+                   "border convention) under explicit handshake/border-cycle/Euler premises. The model is "
                    "tied to the Python code by a value correspondence (exact rationals vs floats) on generated meshes, and the property "
                    "itself is re-stated on the implementation by an oracle (textbook definitions in exact Fractions, metamorphic runs "
                    "under rational rigid motions, renumberings, power-of-two scalings, option sets; angle sums, Gauss-Bonnet)."),
     "level_note": ("Trusted: Lean kernel + 3 standard axioms; the hand-written model (checked against the code on each run's meshes only); "
-                   "sqrt/atan2/float rounding (not modelled, tolerance 1e-9*scale+1e-12); angle_sum_pi and Gauss-Bonnet are checked "
-                   "numerically on every triangulated mesh, not proved."),
+                   "sqrt/atan2/float rounding (not modelled, tolerance 1e-9*scale+1e-12). angle_sum_pi and gauss_bonnet are proved over the "
+                   "reals (Mathlib: atan2 := Complex.arg, Real.sqrt, EuclideanGeometry.angle) for the exact-arithmetic value of the code's "
+                   "formula; their combinatorial premises (handshake, border cycles, Euler) are re-checked on every generated mesh and the "
+                   "sums are also checked numerically on the implementation."),
     "technique": "Lean 4 algebraic laws (ring / linear_combination / field_simp) over an executable Rat model; differential value correspondence; metamorphic oracle",
 }
